@@ -32,7 +32,8 @@ RULE = ('case = mapping run with cloud_safe=True inside a directory whose '
         'query, missing / malformed marker file, marker unknown to the '
         'reference, no usable root marker, negative raw data, wrong '
         'normalisation string, corrupt statistics file, worker fault '
-        '(before / mid / after).  Every string of config and log in the '
+        '(before / mid / after); a third of the runs (every class in turn) '
+        'without a separate log file.  Every string of config and log in the '
         'JSON, the HDF5 metadata and the log file is scanned.  Non-trivial '
         '= at least one output with a log was scanned; distinct = distinct '
         '(class, directory-name style) pairs')
